@@ -293,6 +293,12 @@ def check(ctx):
                           "error log of the same results",
            len(call) == 1 and call[0][2] == (gel_f, gel_t),
            detail=short(call[0]) if call else "", stmt="summary logs")
+    st_es = [(val, cond) for loc, val, _, cond in ri.stores if loc == ("a", n("self"), "error_summary")]
+    ctx.ob("C19.R2", ini, "Summary.error_summary is that summary as computed: every kernel "
+                          "with a recorded error appears (no filtering by the selected "
+                          "parameters, no post-processing)",
+           len(call) == 1 and len(st_es) == 1 and st_es[0][0] == call[0],
+           detail=short(st_es[0][0], 160) if st_es else "no store", stmt="error_summary store")
     # reported sample sizes: warm-up size = total duration of the warm-up epochs (fast and
     # slow adaptation AND burn-in), posterior size = the stored posterior samples
     from .c07 import epoch_types_where
